@@ -55,6 +55,11 @@ class _AsyncioShim:
             return await aw   # nothing in a case takes long enough for a real timeout to matter
         return await self._timers.wait_for(aw, timeout)
 
+    async def wait(self, fs, *, timeout=None, return_when=asyncio.ALL_COMPLETED):
+        if timeout is None or self._timers is None:
+            return await asyncio.wait(fs, timeout=timeout, return_when=return_when)
+        return await self._timers.wait(fs, return_when)
+
 
 class Timers:
     """virtual timeouts: a wait_for(aw, t) registered here times out exactly when fire_one() is called while it is pending
@@ -84,6 +89,25 @@ class Timers:
         with contextlib.suppress(BaseException):
             await task
         raise asyncio.TimeoutError()
+
+    async def wait(self, fs, return_when):
+        """asyncio.wait(fs, timeout=t): returns (done, pending) when the condition is met or when fire_one() says the time is up"""
+        loop = asyncio.get_running_loop()
+        fs = [asyncio.ensure_future(f) for f in fs]
+        fire = loop.create_future()
+        self.pending.append(fire)
+        try:
+            while True:
+                done = {f for f in fs if f.done()}
+                if fire.done() or (return_when == asyncio.FIRST_COMPLETED and done) or len(done) == len(fs) or (
+                        return_when == asyncio.FIRST_EXCEPTION and any(f.done() and not f.cancelled() and f.exception() for f in fs)):
+                    return done, set(fs) - done
+                await asyncio.wait([f for f in fs if not f.done()] + [fire], return_when=asyncio.FIRST_COMPLETED)
+        finally:
+            if fire in self.pending:
+                self.pending.remove(fire)
+            if not fire.done():
+                fire.cancel()
 
     def fire_one(self):
         while self.pending:
